@@ -56,13 +56,18 @@ fn matcher_domains(id: &str, thorough: bool) -> Vec<Domain> {
         ("C04", false) => vec![
             Domain::new("ascii5", ASCII5, 6, 3, cfgs.clone()),
             Domain::new("ascii7", ASCII7, 5, 2, cfgs.clone()),
-            Domain::new("mixed6", &mixed6, 5, 3, cfgs),
+            Domain::new("mixed6", &mixed6, 5, 3, cfgs.clone()),
+            // deep and narrow: two letters, a camel hump and a delimiter; ties between continuing a
+            // run and starting one after a gap need four needle characters and seven columns
+            Domain::new("camel4", &['a', 'b', 'A', '_'], 7, 4, cfgs),
         ],
         ("C04", true) => vec![
-            Domain::new("ascii5", ASCII5, 9, 3, cfgs.clone()),
-            Domain::new("ascii7", ASCII7, 7, 4, cfgs.clone()),
-            Domain::new("mixed8", &mixed8, 6, 4, cfgs.clone()),
-            Domain::new("full16", &full16, 5, 3, cfgs),
+            Domain::new("ascii5", ASCII5, 8, 3, cfgs.clone()),
+            Domain::new("ascii7", ASCII7, 6, 4, cfgs.clone()),
+            Domain::new("mixed8", &mixed8, 5, 4, cfgs.clone()),
+            Domain::new("full16", &full16, 4, 2, cfgs.clone()),
+            Domain::new("camel4", &['a', 'b', 'A', '_'], 9, 4, cfgs.clone()),
+            Domain::new("camel5-digit", &['a', 'b', 'A', '_', '1'], 7, 4, cfgs),
         ],
         (_, false) => vec![
             Domain::new("ascii7", ASCII7, 5, 3, cfgs.clone()),
